@@ -706,7 +706,7 @@ func c11History(e *emitter, r *rng, length int) {
 
 func runC11(c *runCtx) error {
 	r := newRng(c.seed)
-	header := "From Coq Require Import List String.\nFrom KV Require Import Base.Bytes Model.Ast Model.Storage Model.ScanIO Model.FilterOpt Model.Delete Corr.C11.\nImport ListNotations.\nOpen Scope string_scope.\n"
+	header := "From Coq Require Import List String ZArith.\nFrom KV Require Import Base.Bytes Model.Ast Model.Storage Model.ScanIO Model.FilterOpt Model.Delete Corr.C11.\nImport ListNotations.\nOpen Scope string_scope.\n"
 	e := newEmitter(c.out, "C11", header, 60)
 	e.m.Rule = "a delete case = (delete where P [limit s, n], prior state, batch size, polling mode) with the built plan, the per-pair verdicts of FilterExec.Filter, the storage call log, the final state and the result of select * where P [limit s, n] on a clone of the prior state; a history case = a sequence of <= 12 put / remove / delete / select statements on one storage with the state after each; non-trivial = non-empty prior state (delete) / at least two statements (history); distinct = distinct Gallina case terms"
 	deep := c.thorough() || c.search
@@ -856,7 +856,346 @@ func runC11(c *runCtx) error {
 	for i := 0; i < nHist; i++ {
 		c11History(e, r, 2+r.intn(11))
 	}
+	// part E: DELETE statements as query TEXTS through the whole pipeline (Model/PipelineW.v)
+	pwRunC11(c, e, r)
 	e.m.Exhaustive = deep
 	e.m.Notes = append(e.m.Notes, "curated predicates x limits x batch sizes x state sizes 0..3B+1 are enumerated in the thorough tier (a rotating half in the quick tier); random predicate trees, big states and statement sequences are seeded")
 	return e.flush()
+}
+
+// ---------------------------------------------------------------------------------------------
+// C11 from the query TEXT: kvql.NewOptimizer(q).BuildPlan(store) polled until nil against the Coq
+// twin of the whole pipeline (Model/PipelineW.v delete_text, evaluated by Corr/C11.v check_dtext):
+// lexer, statement parser (DELETE, WHERE, LIMIT), Check + Boolean WHERE, function-call check,
+// constant folding of the WHERE tree, region inference and the RemovePlan-shortcut test on the
+// FOLDED tree, LIMIT, scan-and-delete / direct removal.
+
+type pwDReplay struct {
+	Kind     string      `json:"kind"`
+	Query    string      `json:"query"`
+	Select   string      `json:"select_on_prior_state,omitempty"`
+	Build    string      `json:"build_plan"`
+	Store    [][2]string `json:"prior_state"`
+	Mode     string      `json:"mode"`
+	B        int         `json:"batch_size"`
+	Verdicts []string    `json:"keys_passing_the_unfolded_where,omitempty"`
+	Limit    string      `json:"limit_of_the_parsed_statement,omitempty"`
+	Selected []string    `json:"keys_select_returns,omitempty"`
+	Required [][2]string `json:"required_final_state,omitempty"`
+	Final    [][2]string `json:"final_state"`
+	Writes   []string    `json:"write_calls"`
+	Outcome  string      `json:"outcome"`
+	Panic    string      `json:"panic,omitempty"`
+}
+
+// pwDeleteParse: the harness's own parse of q as a DELETE: the WHERE tree as parsed and checked
+// (NOT folded), the LIMIT, and FilterExec.Filter's verdict on every pair
+func pwDeleteParse(q string, kvs [][2]string) (where kvql.Expression, lim c11Limit, keys []string, parsed, evaluable bool) {
+	defer func() {
+		if r := recover(); r != nil {
+			evaluable = false
+		}
+	}()
+	stmt, err := kvql.NewParser(q).Parse()
+	if err != nil {
+		return nil, lim, nil, false, false
+	}
+	ds, ok := stmt.(*kvql.DeleteStmt)
+	if !ok || ds.Where == nil {
+		return nil, lim, nil, false, false
+	}
+	parsed = true
+	where = ds.Where.Expr
+	if ds.Limit != nil {
+		lim = c11Limit{true, ds.Limit.Start, ds.Limit.Count}
+	}
+	fe := &kvql.FilterExec{Ast: ds.Where}
+	evaluable = true
+	for _, kv := range kvs {
+		pass, ferr := fe.Filter(kvql.NewKVPStr(kv[0], kv[1]), kvql.NewExecuteCtx())
+		if ferr != nil {
+			evaluable = false
+			continue
+		}
+		if pass {
+			keys = append(keys, kv[0])
+		}
+	}
+	return
+}
+
+func pwDeleteCase(e *emitter, q string, kvs [][2]string, batch bool, B int, origin string) {
+	mode, modeN := "row", 0
+	if batch {
+		mode, modeN = "batch", 1
+	}
+	rp := pwDReplay{Kind: "DELETE text through NewOptimizer(q).BuildPlan(store), polled until nil", Query: q, Store: kvs, Mode: mode, B: B}
+	toks := pwLex(q)
+	isDelete := len(toks) > 0 && toks[0].Tp == kvql.DELETE
+
+	// the plan, from a scratch build
+	kvql.PlanBatchSize = B
+	kvql.EnableFieldCache = true
+	var plan kvql.FinalPlan
+	var berr error
+	func() {
+		defer func() {
+			if r := recover(); r != nil {
+				rp.Panic = fmt.Sprint(r)
+			}
+		}()
+		plan, berr = kvql.NewOptimizer(q).BuildPlan(newStore(kvs))
+	}()
+	built := "DAccepted"
+	dpT, path, limited := "(DScan (PScan SEmpty))", "-", false
+	switch {
+	case rp.Panic != "":
+		built = "DBuildErr"
+		rp.Build = "panic: " + rp.Panic
+	case berr != nil:
+		if errClass(berr) == "syntax" {
+			built = fmt.Sprintf("(DRejected (%d))", errPos(berr))
+		} else {
+			built = "DBuildErr"
+		}
+		rp.Build = "error: " + berr.Error()
+	default:
+		rp.Build = strings.Join(plan.Explain(), " <- ")
+		var ok bool
+		dpT, path, limited, ok = c11DPlan(plan)
+		if dp, isD := plan.(*kvql.DeletePlan); isD {
+			if lp, isL := dp.ChildPlan.(*kvql.LimitPlan); isL && (lp.Start > pwLimitBound || lp.Count > pwLimitBound) {
+				// the Coq side counts LIMIT in unary: beyond the bound the twin is outside its model
+				// (Model/PipelineW.v limit_bound) and the plan is not printed
+				dpT, ok = "(DScan (PScan SEmpty))", true
+				e.count("text:limit_beyond_model_bound")
+			}
+		}
+		if !ok {
+			if isDelete {
+				e.m.OutOfModel++
+				e.count("text:plan_shape_not_modelled")
+				return
+			}
+			dpT, path = "(DScan (PScan SEmpty))", "not-a-delete"
+		}
+	}
+
+	// the harness's own reading: per-pair verdicts of the UNFOLDED tree, LIMIT of the parsed statement
+	where, lim, verd, parsed, evaluable := pwDeleteParse(q, kvs)
+	rp.Verdicts = verd
+	rp.Limit = lim.text()
+	verdOK := built == "DAccepted" && parsed && evaluable && (!lim.on || (lim.s >= 0 && lim.n >= 0))
+
+	// select * where P [limit] on a clone of the prior state: the same text with `delete` replaced
+	var selKeys []string
+	if verdOK {
+		lq := strings.ToLower(q)
+		i := strings.Index(lq, "delete")
+		q2 := q[:i] + "select * " + q[i+6:]
+		rp.Select = q2
+		sres := runQuery(q2, newStore(kvs), batch, B, true)
+		if sres.Err != nil || sres.Panic != "" {
+			verdOK = false
+			e.count("text:select_failed")
+		}
+		for _, row := range sres.Rows {
+			if len(row) > 0 {
+				selKeys = append(selKeys, c11ColBytes(row[0]))
+			}
+		}
+		rp.Selected = selKeys
+	}
+
+	// the delete itself
+	st := newStore(kvs)
+	res := runQuery(q, st, batch, B, true)
+	rp.Outcome = errClass(res.Err)
+	if res.Panic != "" {
+		rp.Panic = res.Panic
+	}
+	final := st.pairs()
+	rp.Final = final
+	rp.Writes = c12LogText(c11Writes(st.log))
+	class := c11ClassCode[rp.Outcome]
+	if built != "DAccepted" {
+		class = 3
+	}
+	climit := lim
+	if !verdOK || lim.s > pwLimitBound || lim.n > pwLimitBound {
+		climit = c11Limit{}
+		verdOK = false // (a LIMIT the Coq side cannot count in unary: the harness judges alone)
+	}
+	term := fmt.Sprintf("KText (DTCase %s %s %s (DCase %s %s %s None %s %d %d %d %s %s %s))", coqStr(q), built, coqBool(verdOK),
+		coqPairs(kvs), coqStrList(verd), dpT, climit.coq(), B, modeN, class, c12CoqLog(st.log), coqPairs(final), coqStrList(selKeys))
+	idx := e.add(term, rp, built == "DAccepted" && len(kvs) > 0)
+
+	e.count("text:origin=" + origin)
+	switch {
+	case !isDelete:
+		e.count("text:outside_model_not_a_delete")
+	case built == "DAccepted":
+		e.count("text:accepted")
+		e.count("text:access=" + path)
+		if limited {
+			e.count("text:limit=yes")
+		} else if lim.on {
+			e.count("text:limit=ignored_or_dropped")
+		} else {
+			e.count("text:limit=no")
+		}
+		e.count(fmt.Sprintf("text:B=%d", B))
+		e.count("text:mode=" + mode)
+		if !evaluable {
+			e.count("text:accepted_where_not_evaluable_on_every_pair")
+		}
+		if rp.Outcome != "ok" {
+			e.count("text:accepted_run_ends_in_" + rp.Outcome)
+		}
+	case built == "DBuildErr":
+		e.count("text:build_error_not_syntax")
+	default:
+		e.count("text:rejected")
+	}
+
+	// direct verdict on the implementation
+	put := false
+	for _, c := range st.log {
+		if c.Op == "Put" || c.Op == "BatchPut" {
+			put = true
+		}
+	}
+	switch {
+	case !isDelete:
+		// another statement kind (or none): not this twin's, not C11's
+	case rp.Panic != "":
+		e.fail(idx, "panic: "+rp.Panic, "C11/text-panic", rp)
+	case built != "DAccepted":
+		if len(st.log) != 0 || !c12EqPairs(final, kvs) {
+			e.fail(idx, "BuildPlan returned an error, yet the storage was touched", "C11/text-rejected-touches", rp)
+		}
+	case !parsed:
+		e.fail(idx, "BuildPlan accepted a text that Parser.Parse does not read as a DELETE statement", "C11/text-accepted-unparsed", rp)
+	case put:
+		e.fail(idx, "a DELETE wrote a pair (Put / BatchPut)", "C11/text-delete-writes", rp)
+	case rp.Outcome != "ok":
+		if evaluable && !c01SubexprFails(where, kvs) {
+			e.fail(idx, "the DELETE failed although every sub-expression of its WHERE clause evaluates on every stored pair: "+rp.Outcome, "C11/text-delete-fails", rp)
+		}
+	case evaluable:
+		rp.Required = c11Minus(kvs, c11Slice(verd, lim))
+		if len(res.Rows) != 1 {
+			e.fail(idx, fmt.Sprintf("the DELETE returned %d rows before nil", len(res.Rows)), "C11/text-rows", rp)
+		} else if rp.Select != "" && !c12EqPairs(final, c11Minus(kvs, selKeys)) {
+			e.fail(idx, "the final state is not the prior state minus the keys that select * with the same WHERE and LIMIT returns on the prior state", "C11/text-delete-not-select", rp)
+		} else if !c12EqPairs(final, rp.Required) {
+			e.fail(idx, "the final state is not the prior state minus the pairs the (unfolded) WHERE and the LIMIT of the statement text denote", "C11/text-delete-not-exact", rp)
+		}
+	}
+}
+
+// Model/PipelineW.v limit_bound
+const pwLimitBound = 4096
+
+// DELETE texts with a fixed reading
+var pwDeleteDirected = []string{
+	// the shortcut (point reads, no LIMIT, no AND / and in the FOLDED filter) and its neighbours
+	"delete where key = 'a'", "delete where 'ab' = key", "delete where key in ('a', 'zz', 'c')", "delete where key = 'ab' | key = 'b'",
+	"delete where key in ('a', 'b') or key = 'c' or false", "delete where key <= ''", "delete where key = 'a' | key <= ''",
+	"delete where key = 'a' limit 10", "delete where key = 'a' limit 0", "delete where key = 'a' limit 0, 1", "delete where key in ('a', 'b', 'c') limit 1, 1",
+	"delete where key = 'a' & value = 'x'", "delete where key = 'a' and value = 'x'", "delete where key = 'a' & key = 'a'", "delete where key in ('a', 'b') & true",
+	"delete where key = 'a' & 1 = 1", "delete where 1 = 1 & key = 'a'", "delete where key = 'a' and 2 > 1", "delete where (key = 'a' | key = 'b') & 'x' = 'x'",
+	"delete where key = 'a' & 1 = 2", "delete where key = 'a' | 1 = 2", "delete where key = 'a' | 1 = 1", "delete where key = 'a' | (value = 'x' & key = 'b')",
+	"delete where key = 'a' + 'b'", "delete where key in ('a', 'a' + 'b')", "delete where key = lower('AB')", "delete where key = str(1 + 11)", "delete where 'a' + 'b' = key | key = 'c'",
+	"delete where key = 'a' | upper(key) = 'B'", "delete where key = 'a' | value = 'x'", "delete where !(key != 'a')", "delete where key between 'a' and 'a'",
+	"delete where key in ('c', 'a', 'c', 'nope')", "delete where key = 'a' | key = 'a'", "delete where key = value", "delete where key = 'a' | key = value",
+	// every access path, LIMIT
+	"delete where true", "delete where false", "delete where value = 'x'", "delete where key ^= 'a'", "delete where key ^= 'a' & value = 'x'", "delete where key > 'ab' & key <= 'c'",
+	"delete where key >= 'b'", "delete where key between 'ab' and 'c'", "delete where key ^= 'a' limit 1, 2", "delete where true limit 2", "delete where false limit 2",
+	"delete where key = 'a' & key = 'b' limit 3", "delete where key >= 'b' limit 0, 0", "delete where value ^= 'x' limit 1 2", "delete where key ^= lower('A') limit 007",
+	"delete where key ^= 'a' limit 99999999999999999999", "delete where key ^= 'a' limit 9223372036854775807", "delete where key ^= 'a' limit 1, 9223372036854775807",
+	"delete where key ^= 'a' limit 3000000", "delete where key > 'a' + 'a' limit 2, 1",
+	// syntax and checker rejections
+	"delete", "delete where", "delete where ;", "delete key = 'a'", "delete from x where key = 'a'", "delete * where key = 'a'", "delete where key = 'a' limit", "delete where key = 'a' limit ,",
+	"delete where key = 'a' limit 1,", "delete where key = 'a' limit , 1", "delete where key = 'a' limit 1, 2, 3", "delete where key = 'a' limit 1 2 3", "delete where key = 'a' limit 'x'",
+	"delete where key = 'a' limit 1 limit 2", "delete where key = 'a' limit 1 key", "delete where key = 'a' order by key", "delete where key = 'a' group by key", "delete where key = 'a' key",
+	"delete where key = 'a' limit 1 order by key", "delete where key", "delete where 1", "delete where 'a'", "delete where key + 'a'", "delete where key = 1", "delete where value > 1",
+	"delete where nofunc(key) = 'a'", "delete where upper(key, key) = 'A'", "delete where count(key) > 0", "delete where key = 'a' | sum(1) = 1", "delete where `x` = 'a'", "delete where x",
+	"delete where (key = 'a'", "delete where key = 'a')", "delete where key in ()", "delete where key in ('a',)", "delete where key between 'a'", "delete where key = 'a' &",
+	"delete where limit 1", "delete where key = 'a' limit -1", "delete where key = 'a' limit 1.5", "delete delete where key = 'a'", "delete where where key = 'a'",
+	// evaluation errors and the model boundary
+	"delete where int(value) / (1 - 1) = 1", "delete where int(value) / 0 = 1", "delete where key ^= 'a' & 1 / (strlen(value) - 1) = 1", "delete where key = 'a' | 1 / (strlen(value) - 1) = 1",
+	"delete where key ~= '^a'", "delete where key = 'a' & value ~= 'x'", "delete where float(value) > 1.5", "delete where key ^= 'a' & 1.5 + 1 = 2.5",
+	"DELETE WHERE KEY='a'OR KEY='b'", "delete where(key)=('a')", "delete\twhere\nkey = 'ab' ; ", "  delete where key = 'a';;", "Delete Where Key In ('a', 'b') Limit 1",
+	"select * where key = 'a'", "where key = 'a'", "put ('a', 'b')", "remove 'a'", "", ";", "x",
+}
+
+func pwRunC11(c *runCtx, e *emitter, r *rng) {
+	e.m.Rule += "; TEXT cases: DELETE statements (the curated and random predicates above, constant / foldable sub-predicates AND/OR-mixed with key atoms, the shapes that just qualify / just do not qualify for the RemovePlan shortcut, LIMIT in every spelling, a directed list of rejections of every front-end stage, and malformed variants) rendered as query texts with varied spacing, keyword case, trailing semicolons and extra parentheses, x prior states x batch sizes {1,2,3,32} x polling mode; each is run through kvql.NewOptimizer(q).BuildPlan(store), polled until nil, and compared with Model/PipelineW.v delete_text on the text (accepted / rejected and error position, the plan that was built, write calls, final state)"
+	deep := c.thorough() || c.search
+	Bs := []int{1, 2, 3, 32}
+	store := func() [][2]string { return c11Store(r, r.intn(len(c11KeyPool)+1), r.chance(1, 8)) }
+	for i, q := range pwDeleteDirected {
+		pwDeleteCase(e, q, store(), i%2 == 0, Bs[i%4], "directed")
+		if deep {
+			pwDeleteCase(e, pwRender(r, q, 2, true, r.intn(3)), store(), i%2 == 1, pick(r, Bs), "directed")
+			pwDeleteCase(e, pwRender(r, q, 1, true, 0), store(), r.chance(1, 2), pick(r, Bs), "directed")
+		}
+	}
+	n := 380
+	if deep {
+		n = 10000
+	}
+	katoms := keyAtoms([]string{"", "a", "ab", "b", "c"}, false)
+	limits := []string{"", "", "", " limit 1", " limit 2", " limit 0", " limit 1, 2", " limit 0, 3", " limit 2, 1", " limit 3 1", " limit 05", " limit 1,1", " limit 40"}
+	for i := 0; i < n; i++ {
+		var pred string
+		switch r.intn(9) {
+		case 0:
+			pred = pick(r, c11Curated).text
+		case 1:
+			pred = c11Tree(r, 2).text
+		case 2:
+			pred = fmt.Sprintf("(%s) %s (%s)", pick(r, pbConstAtoms), pick(r, []string{"&", "|", "and", "or"}), pick(r, katoms))
+		case 3:
+			pred = fmt.Sprintf("(%s) %s (%s)", pick(r, katoms), pick(r, []string{"&", "|", "and", "or"}), pick(r, pbConstAtoms))
+		case 4:
+			pred = pick(r, pbFoldAtoms)
+			if r.chance(1, 2) {
+				pred = fmt.Sprintf("%s %s %s", pred, pick(r, []string{"&", "|"}), pick(r, append(pbConstAtoms[:12:12], katoms...)))
+			}
+		case 5:
+			// point reads with and without what disqualifies the shortcut
+			a, b := pick(r, c11Lits), pick(r, c11Lits)
+			pred = pick(r, []string{"key = '" + a + "'", "key in ('" + a + "', '" + b + "')", "key = '" + a + "' | key = '" + b + "'", "key = '" + a + "' + ''", "'" + b + "' = key"})
+			switch r.intn(5) {
+			case 0:
+				pred += " & " + pick(r, []string{"true", "1 = 1", "value = 'x'", "key != 'zz'", "2 > 1 & true"})
+			case 1:
+				pred += " and " + pick(r, []string{"true", "'a' < 'b'", "value ^= 'x'"})
+			case 2:
+				pred += " | " + pick(r, []string{"false", "1 = 2", "key = 'c'", "false & true"})
+			}
+		case 6:
+			pred = pick(r, c11Curated).text + " " + pick(r, []string{"&", "|"}) + " " + pick(r, pbConstAtoms)
+		default:
+			pred = c11Atom(r).text
+			if r.chance(1, 2) {
+				pred = "(" + pred + ") " + pick(r, []string{"&", "|", "and", "or"}) + " (" + c11Atom(r).text + ")"
+			}
+		}
+		pred = pwWrap(r, pred)
+		q := "delete where " + pred + pick(r, limits)
+		semis := 0
+		if r.chance(1, 3) {
+			semis = 1 + r.intn(2)
+		}
+		q = pwRender(r, q, r.intn(3), r.chance(1, 2), semis)
+		origin := "generated"
+		if r.chance(1, 8) {
+			q = pbMangle(r, q)
+			origin = "mangled"
+		}
+		pwDeleteCase(e, q, store(), r.chance(1, 2), pick(r, Bs), origin)
+	}
 }
